@@ -1,8 +1,9 @@
 (* Properties/C16.v — Unit formatting and parsing are inverse; parsing never returns a wrong
    number.  Statements only; every proof is `exact <lemma>`. *)
-From Coq Require Import ZArith List Ascii String.
+From Coq Require Import ZArith List Ascii String Sorted.
 From Verif Require Import Base.Prelude Base.Str Base.Float Schema.Regex Schema.Units Schema.FloatUnits Generated.Tables
-  Proofs.UnitsArith Proofs.UnitsSweep Proofs.UnitsBuiltin Proofs.UnitsFloat.
+  Proofs.UnitsArith Proofs.UnitsSweep Proofs.UnitsBuiltin Proofs.UnitsFloat
+  Proofs.UnitsStringRe Proofs.UnitsStringTok Proofs.UnitsStringSound.
 Import ListNotations.
 Open Scope Z_scope.
 Open Scope list_scope.
@@ -100,7 +101,59 @@ Proof. vm_compute. repeat split; reflexivity. Qed.
    subtraction of the decomposition; it is carried by the correspondence family (fmtfloat cases,
    direct tolerance check) only. *)
 
-(* NOT proved (partial): the string-level round trip for ARBITRARY definitions.  It is false
-   as stated when two units share a name or a name is a count-prefix of another's token
-   stream; the correspondence check exercises generated definitions (Proofs/ has no theorem
-   for them) and reports every definition on which the implementation fails to round-trip. *)
+(* (5) String level, ARBITRARY well-formed definitions, every input string: "parsing never
+   returns a wrong number".  If ParseInt answers n then the trimmed input IS a tokenisation
+   (Proofs/UnitsStringSound.v: tokenisation / Proofs/UnitsStringTok.v: useq, uparts):
+   optional spaces, then for every multiplier in strictly DESCENDING order and last for the base
+   unit either nothing or  count, optional spaces, one of the four declared names of that unit
+   (the base unit may stay unnamed), optional spaces; the counts are non-empty digit runs;
+   n is EXACTLY  sum count x multiplier  (absent unit = 0), and every partial sum (largest
+   unit first) is an int64.  Rests on the soundness of the backtracking matcher w.r.t. a
+   declarative semantics of the whole regexp language of Schema/Regex.v (C16_matcher_sound). *)
+Theorem C16_matcher_sound : forall r whole s cs,
+  re_match_at r whole s = Some cs -> exists s', re_matches whole r s s' [] cs.
+Proof. exact re_match_at_sound. Qed.
+Print Assumptions C16_matcher_sound.
+
+(* ... and the fuel the model gives the matcher is enough: where a declarative match exists
+   the matcher answers (with a match, by soundness) *)
+Theorem C16_matcher_complete_weak : forall r whole s s' cs,
+  re_matches whole r s s' [] cs -> re_match_at r whole s <> None.
+Proof. exact re_match_at_complete. Qed.
+Print Assumptions C16_matcher_complete_weak.
+
+Theorem C16_parse_sound : forall u s n, wf_units u = true -> parse_units_int u s = Some n ->
+  exists toks,
+    tokenisation u (chars (trim_space s)) toks
+    /\ n = dot (map tok_count toks) (units_keys u)
+    /\ (forall k, in_i64 (dot (firstn k (map tok_count toks)) (units_keys u)) = true)
+    /\ StronglySorted mult_gt (sorted_mults u).
+Proof. exact parse_sound. Qed.
+Print Assumptions C16_parse_sound.
+
+(* non-vacuity: a definition and inputs that meet the hypotheses; and the shape of a tokenisation *)
+Example C16_parse_sound_nonvacuous :
+  wf_units unit_duration_seconds = true
+  /\ parse_units_int unit_duration_seconds "  1 day 5m30 seconds " = Some 86730
+  /\ units_keys unit_duration_seconds = [86400; 3600; 60; 1]
+  /\ tokenisation unit_duration_seconds (chars "5m 30s") [[]; []; chars "5"; chars "30"].
+Proof.
+  split; [vm_compute; reflexivity|]. split; [vm_compute; reflexivity|]. split; [vm_compute; reflexivity|].
+  exists [], (chars "5m 30s"). split; [reflexivity|]. split; [reflexivity|]. split.
+  - change (chars "5m 30s") with ([] ++ [] ++ (chars "5" ++ [] ++ chars "m") ++ chars " " ++ (chars "30" ++ [] ++ chars "s") ++ [] ++ [])%list.
+    change (uparts unit_duration_seconds) with
+      [(86400, false, unit_names (mkUnit "d" "d" "day" "days")); (3600, false, unit_names (mkUnit "H" "H" "hour" "hours"));
+       (60, false, unit_names (mkUnit "m" "m" "minute" "minutes")); (1, true, ""%string :: unit_names (mkUnit "s" "s" "second" "seconds"))].
+    apply (useq_cons 86400 false _ _ [] [] [] ([] ++ [] ++ (chars "5" ++ [] ++ chars "m") ++ chars " " ++ (chars "30" ++ [] ++ chars "s") ++ [] ++ [])%list
+             [[]; chars "5"; chars "30"]); [constructor | reflexivity |].
+    apply (useq_cons 3600 false _ _ [] [] [] ((chars "5" ++ [] ++ chars "m") ++ chars " " ++ (chars "30" ++ [] ++ chars "s") ++ [] ++ [])%list
+             [chars "5"; chars "30"]); [constructor | reflexivity |].
+    apply (useq_cons 60 false _ _ (chars "5" ++ [] ++ chars "m")%list (chars "5") (chars " ") ((chars "30" ++ [] ++ chars "s") ++ [] ++ [])%list
+             [chars "30"]);
+      [apply (useg_tok false _ (chars "5") [] "m"%string); [constructor; [discriminate | reflexivity] | reflexivity | cbn; tauto] | reflexivity |].
+    apply (useq_cons 1 true _ _ (chars "30" ++ [] ++ chars "s")%list (chars "30") [] [] []);
+      [apply (useg_tok true _ (chars "30") [] "s"%string); [constructor; [discriminate | reflexivity] | reflexivity | cbn; tauto] | reflexivity | constructor].
+  - constructor; [left; reflexivity|]. constructor; [left; reflexivity|].
+    constructor; [right; split; [discriminate | reflexivity]|].
+    constructor; [right; split; [discriminate | reflexivity] | constructor].
+Qed.
